@@ -191,3 +191,85 @@ Qed.
 Lemma split_names_app_refuted :
   split_names ([97; 92] ++ slash :: [98]) <> split_names [97; 92] ++ split_names [98].
 Proof. vm_compute. discriminate. Qed.
+
+(* ---- every list of names has a key: escape each '/', join with "/" ---------- *)
+Definition starts_with_slash (a : pstr) : bool := match a with c :: _ => c =? slash | [] => false end.
+
+Lemma escape_no_leading_slash a : starts_with_slash (escape a) = false.
+Proof.
+  destruct a as [|c a]; [reflexivity|]. cbn [escape].
+  destruct (c =? slash) eqn:E; cbn [starts_with_slash]; [reflexivity | exact E].
+Qed.
+
+Lemma unescape_cons_noslash' c e : starts_with_slash e = false -> unescape (c :: e) = c :: unescape e.
+Proof.
+  intros H. destruct e as [|d e]; [reflexivity|]. cbn [starts_with_slash] in H.
+  apply unescape_cons_noslash. apply N.eqb_neq. exact H.
+Qed.
+
+Lemma unescape_escape a : unescape (escape a) = a.
+Proof.
+  induction a as [|c a IH]; [reflexivity|]. cbn [escape].
+  destruct (c =? slash) eqn:E.
+  - apply N.eqb_eq in E. subst c. cbn [unescape].
+    change (backslash =? backslash) with true. change (slash =? slash) with true. cbn [andb].
+    f_equal. exact IH.
+  - rewrite unescape_cons_noslash' by apply escape_no_leading_slash. f_equal. exact IH.
+Qed.
+
+Lemma split_unesc_escape b a : split_unesc_from b (escape a) = [escape a].
+Proof.
+  revert b; induction a as [|c a IH]; intros b; [reflexivity|]. cbn [escape].
+  destruct (c =? slash) eqn:E.
+  - rewrite !split_unesc_from_cons. change (backslash =? slash) with false. cbn [andb].
+    change (backslash =? backslash) with true. change (slash =? slash) with true. cbn [negb andb].
+    change (slash =? backslash) with false. rewrite IH. reflexivity.
+  - rewrite split_unesc_from_cons. rewrite E. cbn [andb]. rewrite IH. reflexivity.
+Qed.
+
+Lemma split_names_escape a : split_names (escape a) = [strip a].
+Proof.
+  unfold split_names, split_unesc. rewrite split_unesc_escape. cbn [map]. rewrite unescape_escape. reflexivity.
+Qed.
+
+Lemma escape_nonnil c a : escape (c :: a) <> [].
+Proof. cbn [escape]. destruct (c =? slash); discriminate. Qed.
+
+Lemma ends_with_backslash_cons' c e : e <> [] -> ends_with_backslash (c :: e) = ends_with_backslash e.
+Proof. destruct e as [|d e]; [congruence|]. intros _. apply ends_with_backslash_cons. Qed.
+
+Lemma ends_with_backslash_escape a : ends_with_backslash (escape a) = ends_with_backslash a.
+Proof.
+  induction a as [|c a IH]; [reflexivity|]. cbn [escape].
+  destruct a as [|d a].
+  - cbn [escape]. destruct (c =? slash) eqn:E; [|reflexivity].
+    apply N.eqb_eq in E. subst c. reflexivity.
+  - rewrite (ends_with_backslash_cons c d a). rewrite <- IH.
+    destruct (c =? slash).
+    + rewrite !ends_with_backslash_cons' by (apply escape_nonnil || discriminate). reflexivity.
+    + rewrite ends_with_backslash_cons' by apply escape_nonnil. reflexivity.
+Qed.
+
+(* C09 "stable addressing": the key spelled from a list of names leads back to exactly those names,
+   stripped -- provided no name but the last ends in a backslash (there is no escape for a backslash) *)
+Theorem split_path_string names :
+  names <> [] ->
+  Forall (fun n => ends_with_backslash n = false) (removelast names) ->
+  split_names (path_string names) = map strip names.
+Proof.
+  unfold path_string. induction names as [|n names IH]; intros Hne Hbs; [congruence|].
+  destruct names as [|n2 names].
+  - cbn [map join]. apply split_names_escape.
+  - cbn [removelast] in Hbs. inversion Hbs as [|? ? Hn Hrest]; subst.
+    change (map escape (n :: n2 :: names)) with (escape n :: escape n2 :: map escape names).
+    change (join [slash] (escape n :: escape n2 :: map escape names))
+      with (escape n ++ slash :: join [slash] (map escape (n2 :: names))).
+    rewrite split_names_app by (rewrite ends_with_backslash_escape; exact Hn).
+    rewrite split_names_escape. cbn [map app]. f_equal.
+    apply IH; [discriminate | exact Hrest].
+Qed.
+
+(* the guard is necessary: a name ending in a backslash swallows the following separator *)
+Lemma split_path_string_refuted :
+  split_names (path_string [[97; 92]; [98]]) <> map strip [[97; 92]; [98]].
+Proof. vm_compute. discriminate. Qed.
